@@ -640,6 +640,8 @@ class Provenance(MutableSequence[Expression]):
         return self._data.shape[0]
 
     def insert(self, index: int, value: Expression) -> None:
+        # Follow the list.insert convention: negative indices count from the end, out-of-range indices are clipped.
+        index = min(max(index + len(self), 0) if index < 0 else index, len(self))
         self._data = np.insert(self._data, index, -1, axis=0)
         self[index] = value
 
